@@ -117,3 +117,12 @@
     #[kani::unwind(7)]
     //@ERR
     fn c16_rc_finish_count_3() { rc_finish_count(3); }
+
+    /// scaffolding for LZMA2 writer harnesses: a buffer range encoder that already holds `n` pending compressed bytes
+    pub(crate) fn mk_buffer_encoder(cap: usize, n: usize, fill: u8) -> RangeEncoder<RangeEncoderBuffer> {
+        let mut e = RangeEncoder::new_buffer(cap);
+        let mut i = 0;
+        while i < n { e.inner.buf[i] = fill; i += 1; }
+        e.inner.pos = n;
+        e
+    }
